@@ -35,22 +35,43 @@ def schedule_strategy():
     def stepped(sc, us, where, first, step):
         return dict(syscall=sc, us=us, where=where, when="%d+%d" % (first, step))
     where = st.sampled_from(["enter", "exit"])
-    inject = st.one_of(
-        st.none(), st.none(),
-        st.builds(every, st.sampled_from(["mkdir", "rename", "fsync"]), st.integers(1000, 30000), where),
-        st.builds(stepped, st.just("openat"), st.integers(1000, 15000), where, st.integers(30, 150), st.integers(1, 3)),
-        st.builds(stepped, st.just("write"), st.integers(500, 8000), where, st.integers(20, 190), st.integers(1, 3)),
-        st.builds(stepped, st.just("close"), st.integers(500, 5000), where, st.integers(60, 400), st.integers(1, 4)))
-    proc = st.fixed_dictionaries(dict(
-        delay_us=skew0(50000),
-        kernels=st.lists(st.sampled_from(sorted(cf.POOL)), min_size=1, max_size=3, unique=True),
-        flip_mode=st.sampled_from([False, False, False, False, True]),
-        cc_pre_ms=skew0(300),
-        cc_post_ms=skew0(300),
-        inject=inject))
+
+    def injections(us_all, us_step):
+        return [
+            st.builds(every, st.sampled_from(["mkdir", "rename", "fsync"]), st.integers(1000, us_all), where),
+            st.builds(stepped, st.just("openat"), st.integers(1000, us_step), where, st.integers(30, 150), st.integers(1, 3)),
+            st.builds(stepped, st.just("write"), st.integers(500, us_step), where, st.integers(20, 190), st.integers(1, 3)),
+            st.builds(stepped, st.just("close"), st.integers(500, us_step // 2), where, st.integers(60, 400), st.integers(1, 4))]
+    inject = st.one_of(st.none(), st.none(), *injections(30000, 12000))
+    # process 0 is the "leader": it usually holds some of its calls for long, and the schedule can give it a head start
+    # over everybody else (head_start_us is added to the start offset of processes 1..N-1), so that the others arrive
+    # while the leader sits inside one of its windows (directory being created, file open, temp file not yet renamed)
+    # One class per window kind, each frequent enough to occur several times in a quick run:
+    #   mkdir held at entry    - the directory was seen missing, somebody else creates it meanwhile
+    #   openat held at exit / write held at entry - a file has just been created (empty) and is not written yet
+    #   fsync, rename held at entry - a complete temp file is not published yet
+    lead_inject = st.one_of(
+        st.none(),
+        st.builds(every, st.just("mkdir"), st.integers(30000, 80000), st.just("enter")),
+        st.builds(stepped, st.just("openat"), st.integers(5000, 40000), st.just("exit"), st.integers(30, 60), st.just(1)),
+        st.builds(stepped, st.just("write"), st.integers(5000, 40000), st.just("enter"), st.integers(20, 40), st.just(1)),
+        st.builds(every, st.sampled_from(["rename", "fsync"]), st.integers(20000, 80000), st.just("enter")),
+        st.builds(every, st.just("mkdir"), st.integers(30000, 80000), st.just("enter")))
+
+    def proc(inj):
+        return st.fixed_dictionaries(dict(
+            delay_us=skew0(50000),
+            kernels=st.lists(st.sampled_from(sorted(cf.POOL)), min_size=1, max_size=3, unique=True),
+            flip_mode=st.sampled_from([False, False, False, False, True]),
+            cc_pre_ms=skew0(300),
+            cc_post_ms=skew0(300),
+            inject=inj))
     return st.fixed_dictionaries(dict(
         mode=st.sampled_from(list(cf.MODES)),
-        procs=st.lists(proc, min_size=2, max_size=16)))
+        head_start_us=st.one_of(st.just(0), st.integers(2000, 25000), st.integers(2000, 25000)),
+        leader=proc(lead_inject),
+        others=st.lists(proc(inject), min_size=1, max_size=15))).map(
+            lambda d: dict(mode=d["mode"], head_start_us=d["head_start_us"], procs=[d["leader"]] + d["others"]))
 
 
 def proc_mode(sched, p):
@@ -78,7 +99,8 @@ def run_schedule(ctx, sched, sdir):
                 extra["W_CC_PRE"] = "%.3f" % (p["cc_pre_ms"] / 1000.0)
             if p.get("cc_post_ms"):
                 extra["W_CC_POST"] = "%.3f" % (p["cc_post_ms"] / 1000.0)
-            cmd = [ctx.worker, mode, ",".join(p["kernels"]), "--gate", "--delay-us", str(int(p.get("delay_us", 0)))]
+            offset = int(p.get("delay_us", 0)) + (int(sched.get("head_start_us", 0)) if i > 0 else 0)
+            cmd = [ctx.worker, mode, ",".join(p["kernels"]), "--gate", "--delay-us", str(offset)]
             inj = p.get("inject")
             if inj:
                 spec = "%s:delay_%s=%d" % (inj["syscall"], inj["where"], int(inj["us"]))
@@ -206,7 +228,7 @@ def replay_file(ctx, path, wd, tag, times=3):
 
 
 RULE = ("case = schedule generated by Hypothesis: 2-16 worker processes, each with a start offset after a common release "
-        "(0-50 ms, skewed to 0), 1-3 kernels out of {s0, s1 (string-built), f2, f3 (file-built, f3 with #include)}, a mode "
+        "(0-50 ms, skewed to 0; optionally a common head start of 2-25 ms for process 0, which usually holds its calls longest), 1-3 kernels out of {s0, s1 (string-built), f2, f3 (file-built, f3 with #include)}, a mode "
         "(schedule mode, flipped for 1 in 5), generated sleeps before/after the real compiler, and optionally a strace "
         "delay injected at entry/exit of its mkdir/rename/fsync/openat/write/close calls; all share one empty cache directory and "
         "are released at the same instant. Oracle: every process exits 0 with the model outputs; a follow-up process per "
